@@ -268,4 +268,143 @@ theorem routeWithdraw_lenExact : routeWithdrawC.LenExact := by
 theorem nodeInfoAdvertise_lenExact : nodeInfoAdvertiseC.LenExact := by
   unfold nodeInfoAdvertiseC encInfoC; codec_lenexact
 
+/-! ### allocation of `DecodeQueuedState` -/
+
+/-- a blob list whose nested decoder allocates at most `L` bytes per blob byte: at most
+    `(L+1)` per byte consumed -/
+theorem blobAlloc_bound {α : Type} (dec : Bytes → Option α) (top : Bytes → Nat) (L : Nat)
+    (hL : ∀ blob, top blob ≤ L * blob.length) :
+    ∀ (n : Nat) (bs : Bytes),
+      (∀ l r, blobList dec n bs = some (l, r) →
+        blobAlloc top n bs + (L + 1) * r.length ≤ (L + 1) * bs.length) ∧
+      blobAlloc top n bs ≤ (L + 1) * bs.length := by
+  intro n
+  induction n with
+  | zero =>
+    intro bs
+    refine ⟨fun l r h => ?_, by simp [blobAlloc]⟩
+    simp only [blobList] at h
+    injection h with h; injection h with h1 h2
+    subst h2; simp [blobAlloc]
+  | succ n ih =>
+    intro bs
+    simp only [blobAlloc, blobList]
+    cases hd : (lp 2).dec bs with
+    | none => exact ⟨fun l r h => by simp at h, by simp⟩
+    | some p =>
+      obtain ⟨blob, r1⟩ := p
+      have hle := lp_lenExact 2 _ _ _ hd
+      have hbl : ((lp 2).enc blob).length = 2 + blob.length := by simp [lp]
+      have hR := ih r1
+      have hT := hL blob
+      have e1 : (L + 1) * bs.length = (L + 1) * (2 + blob.length + r1.length) := by
+        congr 1; omega
+      have e2 : (L + 1) * (2 + blob.length + r1.length)
+          = (L + 1) * 2 + (L * blob.length + blob.length) + (L + 1) * r1.length := by
+        rw [Nat.mul_add, Nat.mul_add, Nat.add_mul L 1 blob.length, Nat.one_mul]
+      simp only []
+      refine ⟨?_, by have := hR.2; omega⟩
+      intro l r h
+      cases hd2 : blobList dec n r1 with
+      | none => simp [hd2] at h
+      | some q =>
+        obtain ⟨l', r'⟩ := q
+        simp [hd2] at h
+        obtain ⟨_, rfl⟩ := h
+        have := hR.1 l' r' hd2
+        omega
+
+theorem routeAdvertiseAlloc_linear (blob : Bytes) : routeAdvertiseAlloc blob ≤ 700 * blob.length := by
+  have := decodeTopAlloc_linear routeAdvertise_alloc 28 (by decide) blob
+  have e : (2 + 18360 / 28 + 1) = 658 := by decide
+  rw [e] at this
+  have : 658 * blob.length ≤ 700 * blob.length := Nat.mul_le_mul_right _ (by decide)
+  unfold routeAdvertiseAlloc
+  omega
+
+theorem routeWithdrawAlloc_linear (blob : Bytes) : routeWithdrawAlloc blob ≤ 700 * blob.length := by
+  have := decodeTopAlloc_linear routeWithdraw_alloc 26 (by decide) blob
+  have e : (1 + 14280 / 26 + 1) = 551 := by decide
+  rw [e] at this
+  have : 551 * blob.length ≤ 700 * blob.length := Nat.mul_le_mul_right _ (by decide)
+  unfold routeWithdrawAlloc
+  omega
+
+theorem nodeInfoAdvertiseAlloc_linear (blob : Bytes) :
+    nodeInfoAdvertiseAlloc blob ≤ 700 * blob.length := by
+  have := decodeTopAlloc_linear nodeInfoAdvertise_alloc 28 (by decide) blob
+  have e : (4 + 11360 / 28 + 1) = 410 := by decide
+  rw [e] at this
+  have : 410 * blob.length ≤ 700 * blob.length := Nat.mul_le_mul_right _ (by decide)
+  unfold nodeInfoAdvertiseAlloc
+  omega
+
+theorem cap_le (size count : Nat) (rest : Bytes) (bound : Nat) (h : rest.length ≤ bound) :
+    size * min count (rest.length / 2) ≤ size * (bound / 2) :=
+  Nat.mul_le_mul_left _ (Nat.le_trans (Nat.min_le_right _ _) (Nat.div_le_div_right h))
+
+/-- `DecodeQueuedState` (fixed) allocates at most 941·len + 8160 bytes through wire-driven sizes. -/
+theorem queuedAlloc_le (buf : Bytes) : queuedAlloc buf ≤ 941 * buf.length + 8160 := by
+  unfold queuedAlloc
+  have z1 : sizeofRouteAdvertise = 120 := rfl
+  have z2 : sizeofRouteWithdraw = 72 := rfl
+  have z3 : sizeofNodeInfoAdvertise = 288 := rfl
+  split
+  · omega
+  · cases h0 : u16.dec buf with
+    | none => simp only []; omega
+    | some p0 =>
+      obtain ⟨rc, r0⟩ := p0
+      have s0 := be_shrinks 2 _ _ _ h0
+      have c1 := cap_le sizeofRouteAdvertise rc r0 buf.length s0
+      have e1 : sizeofRouteAdvertise * (buf.length / 2) = 120 * (buf.length / 2) := by rw [z1]
+      have B1 := blobAlloc_bound decodeRouteAdvertise routeAdvertiseAlloc 700 routeAdvertiseAlloc_linear rc r0
+      simp only []
+      cases h1 : blobList decodeRouteAdvertise rc r0 with
+      | none => simp only []; have := B1.2; omega
+      | some p1 =>
+        obtain ⟨l1, r1⟩ := p1
+        have b1 := B1.1 l1 r1 h1
+        have s1 := blobList_shrinks _ _ _ _ _ h1
+        simp only []
+        cases h2 : u16.dec r1 with
+        | none => simp only []; omega
+        | some p2 =>
+          obtain ⟨wc, r2⟩ := p2
+          have s2 := be_shrinks 2 _ _ _ h2
+          have c2 := cap_le sizeofRouteWithdraw wc r2 buf.length (by omega)
+          have e2 : sizeofRouteWithdraw * (buf.length / 2) = 72 * (buf.length / 2) := by rw [z2]
+          have B2 := blobAlloc_bound decodeRouteWithdraw routeWithdrawAlloc 700 routeWithdrawAlloc_linear wc r2
+          simp only []
+          cases h3 : blobList decodeRouteWithdraw wc r2 with
+          | none => simp only []; have := B2.2; omega
+          | some p3 =>
+            obtain ⟨l3, r3⟩ := p3
+            have b2 := B2.1 l3 r3 h3
+            have s3 := blobList_shrinks _ _ _ _ _ h3
+            simp only []
+            cases h4 : u16.dec r3 with
+            | none => simp only []; omega
+            | some p4 =>
+              obtain ⟨nc, r4⟩ := p4
+              have s4 := be_shrinks 2 _ _ _ h4
+              have c3 := cap_le sizeofNodeInfoAdvertise nc r4 buf.length (by omega)
+              have e3 : sizeofNodeInfoAdvertise * (buf.length / 2) = 288 * (buf.length / 2) := by rw [z3]
+              have B3 := blobAlloc_bound decodeNodeInfoAdvertise nodeInfoAdvertiseAlloc 700
+                nodeInfoAdvertiseAlloc_linear nc r4
+              simp only []
+              cases h5 : blobList decodeNodeInfoAdvertise nc r4 with
+              | none => simp only []; have := B3.2; omega
+              | some p5 =>
+                obtain ⟨l5, r5⟩ := p5
+                have b3 := B3.1 l5 r5 h5
+                have s5 := blobList_shrinks _ _ _ _ _ h5
+                simp only []
+                cases r5 with
+                | nil => simp only []; omega
+                | cons sf r6 =>
+                  have hc := decodeTopAlloc_le sleep_alloc cmdMinLen r6
+                  simp only [cmdAlloc, List.length_cons] at *
+                  omega
+
 end MM.C05
